@@ -35,6 +35,8 @@ def cases(seed, tier):
             c["extreme"] = True
         if r.random() < 0.5:
             c["cfg"]["volume_variation"] = r.choice([0.05, 0.1, 0.25, 1.0])
+            if c["cfg"]["n_particles"] >= 500:
+                c["cfg"]["volume_variation"] = max(c["cfg"]["volume_variation"], 0.25)  # large batches stay cheap (see std_case)
         out.append(c)
     for k in range(n // 4):
         r = random.Random(sch.np_seed(f"c05.con{k}"))
